@@ -99,9 +99,9 @@ Definition adm_entry (wide : bool) (L : label -> option Z) (p : Z) (e : entry) :
   | Br (KJump _ _) l => if wide then tgt_ok fits32 L p l else tgt_ok fits16 L p l
   | TSwitch d low high ts =>
       negb wide && tgt_ok fits32 L p d && forallb (tgt_ok fits32 L p) ts
-      && (low <=? high) && (zlen ts =? high - low + 1) && fits32 low && fits32 high
+      && (low <=? high) && (zlen ts =? high - low + 1)
   | LSwitch d ps =>
-      negb wide && tgt_ok fits32 L p d && forallb (fun kp => tgt_ok fits32 L p (snd kp) && fits32 (fst kp)) ps
+      negb wide && tgt_ok fits32 L p d && forallb (fun kp => tgt_ok fits32 L p (snd kp)) ps
       && keys_sorted ps && (zlen ps <=? i32max)
   end.
 Fixpoint admissible (chs : list bool) (L : label -> option Z) (p : Z) (b : body) : bool :=
